@@ -122,6 +122,15 @@ func (vc *VC) assert(t string) {
 	vc.tags = append(vc.tags, vc.curTag)
 }
 
+// assertGlobal adds a fact that does not belong to a program point (definitional axioms, typing closures of
+// entry-state components, distinctness of literals): it is never sliced away.
+func (vc *VC) assertGlobal(t string) {
+	save := vc.curTag
+	vc.curTag = -1
+	vc.assert(t)
+	vc.curTag = save
+}
+
 // assume adds a guarded assumption.
 func (vc *VC) assume(guard, t string) {
 	if t == "true" {
@@ -564,11 +573,11 @@ func (vc *VC) strLit(s string) string {
 	vc.strLits[s] = n
 	vc.declare(n, "Int")
 	vc.declareFun("strlen", []string{"Int"}, "Int")
-	vc.assert(fmt.Sprintf("(= (strlen %s) %d)", n, len(s)))
+	vc.assertGlobal(fmt.Sprintf("(= (strlen %s) %d)", n, len(s)))
 	// pairwise distinct from earlier literals
 	for o, on := range vc.strLits {
 		if o != s {
-			vc.assert(fmt.Sprintf("(distinct %s %s)", n, on))
+			vc.assertGlobal(fmt.Sprintf("(distinct %s %s)", n, on))
 		}
 	}
 	return n
